@@ -82,6 +82,55 @@ def real_mixtures(seed, thorough=False):
                 yield {'name': name, 'ok': type(exc).__name__ == 'CalculationError', 'detail': f"{type(exc).__name__}: {exc}"[:200]}
 
 
+def helper_cases():
+    """fraction-based, selectivity and vapour-liquid helpers on real isotherms, with the fractions given as lists and as numpy
+    arrays (used for more than one evaluation): exactly what the point calculation gives; the caller's arrays unchanged"""
+    import pygaps.iast as pgi
+    isos = [_iso('Langmuir', {'K': 3.0, 'n_m': 4.0}, 0), _iso('Langmuir', {'K': 0.6, 'n_m': 4.0}, 1)]
+    y = numpy.array([0.3, 0.7])
+    y0 = y.copy()
+    probs = []
+    for Pt in (2.0, 5.0):
+        got = numpy.asarray(pgi.iast_point_fraction(isos, y, Pt, warningoff=True))
+        want = numpy.asarray(pgi.iast_point(isos, [0.3 * Pt, 0.7 * Pt], warningoff=True))
+        if not numpy.allclose(got, want, rtol=1e-8):
+            probs.append(f"iast_point_fraction(array, P={Pt}) = {got}, point calculation {want}")
+    if not numpy.array_equal(y, y0):
+        probs.append(f"caller's fraction array changed: {y0} -> {y}")
+    yield {'name': 'helper|iast_point_fraction|array_used_twice', 'ok': not probs, 'detail': '; '.join(probs)}
+    for kind, fr in (('list', [0.3, 0.7]), ('array', numpy.array([0.3, 0.7]))):
+        pressures = [0.5, 1.0, 2.0, 4.0]
+        res = pgi.iast_binary_svp(isos, fr, pressures, warningoff=True)
+        want = []
+        for Pt in pressures:
+            n = numpy.asarray(pgi.iast_point(isos, [0.3 * Pt, 0.7 * Pt], warningoff=True))
+            want.append((n[0] / n[1]) / (0.3 / 0.7))
+        ok = numpy.allclose(res['selectivity'], want, rtol=1e-8)
+        yield {'name': f"helper|iast_binary_svp|fractions_as_{kind}", 'ok': bool(ok), 'detail': '' if ok else f"{res['selectivity']} vs {want}"}
+    res = pgi.iast_binary_vle(isos, 2.0, npoints=5, warningoff=True)
+    ys = numpy.asarray(res['y'])[1:-1]
+    want = []
+    for yy in ys:
+        n = numpy.asarray(pgi.iast_point(isos, [yy * 2.0, (1 - yy) * 2.0], warningoff=True))
+        want.append(n[0] / n.sum())
+    ok = numpy.allclose(numpy.asarray(res['x'])[1:-1], want, rtol=1e-8)
+    yield {'name': 'helper|iast_binary_vle', 'ok': bool(ok), 'detail': '' if ok else f"{numpy.asarray(res['x'])[1:-1]} vs {want}"}
+
+
+@replayer('c13.fraction_array')
+def _fraction_array(spec, model):
+    bad = [r for r in helper_cases() if not r['ok']]
+    return {'confirmed': bool(bad), 'observed': [(b['name'], b['detail']) for b in bad[:3]], 'expected': 'helpers == point calculation, arguments unchanged'}
+
+
+@replayer('c13.helper')
+def _helper(spec, model):
+    for r in helper_cases():
+        if r['name'] == spec['name']:
+            return {'confirmed': not r['ok'], 'observed': r['detail']}
+    return {'confirmed': False, 'error': 'case not found'}
+
+
 @replayer('c13.real')
 def _real(spec, model):
     for res in real_mixtures(spec.get('seed', 0), thorough=True):
